@@ -47,6 +47,7 @@ package interp // import "golang.org/x/tools/go/ssa/interp"
 import (
 	"fmt"
 	"strings"
+	"time"
 	"go/token"
 	"go/types"
 	"log"
@@ -194,7 +195,20 @@ func lookupMethod(i *interpreter, typ types.Type, meth *types.Func) *ssa.Functio
 // visitInstr interprets a single ssa.Instruction within the activation
 // record frame.  It returns a continuation value indicating where to
 // read the next instruction from.
+// pathSteps counts interpreted instructions of the current path; a path
+// that exceeds its budget ends as inconclusive (never as success).
+var pathSteps int64
+var pathDeadline time.Time
+
+const maxPathSteps = 40000000
+
 func visitInstr(fr *frame, instr ssa.Instruction) continuation {
+	pathSteps++
+	if pathSteps&0xffff == 0 {
+		if pathSteps > maxPathSteps || time.Now().After(pathDeadline) {
+			panic(pathStop{"path budget exceeded (inconclusive)"})
+		}
+	}
 	switch instr := instr.(type) {
 	case *ssa.DebugRef:
 		// no-op
